@@ -29,7 +29,7 @@ Ev == Trace[i]
 Has(r, f) == f \in DOMAIN r
 
 S0(salt0) == [
-  pst |-> [k \in K |-> "none"], ppong |-> [k \in K |-> FALSE], pcancel |-> [k \in K |-> FALSE],
+  pst |-> [k \in K |-> "none"], ppong |-> [k \in K |-> FALSE], pcancel |-> [k \in K |-> FALSE], pwf |-> [k \in K |-> FALSE],
   loopOut |-> FALSE, ended |-> FALSE, endReq |-> FALSE,
   told |-> {salt0}, stored |-> {}, storedSince |-> {}, now |-> 0, prev |-> salt0, everValid |-> {},
   rst |-> [k \in K |-> "none"], icancel |-> [k \in K |-> FALSE],
@@ -97,7 +97,7 @@ HAcc(e) ==
 \* whatever the driver does next, everything that had to complete has completed (the driver waits for quiescence)
 Settled ==
   /\ (Check = "C23") => \A k \in s.must : s.rst[k] = "done"
-  /\ (Check = "C43") => \A k \in K : (s.pst[k] = "sent" /\ s.ppong[k]) => FALSE
+  /\ (Check = "C43") => \A k \in K : (s.pst[k] = "sent" /\ s.ppong[k] /\ ~s.pwf[k]) => FALSE
   /\ (Check = "C41") => \A k \in K : (s.rst[k] = "sent" /\ s.due[k] # -1) => FALSE
 
 \* C08: a message's seqno is twice the number of content messages with a smaller id, plus one for a content message
@@ -107,7 +107,8 @@ IdSeqOK == \A f \in s.frames :
 
 Step ==
   \/ /\ Ev.ev = "ping" /\ Settled
-     /\ s' = [s EXCEPT !.pst[Ev.k] = "started"]
+     \* wfail: the driver's transport will report this write as failed after the bytes have left
+     /\ s' = [s EXCEPT !.pst[Ev.k] = "started", !.pwf[Ev.k] = Has(Ev, "wfail") /\ Ev.wfail]
   \/ /\ Ev.ev = "invoke" /\ Settled
      /\ s' = [s EXCEPT !.rst[Ev.k] = "started"]
   \/ /\ Ev.ev = "cancel" /\ Settled
@@ -181,6 +182,7 @@ Step ==
            \/ Ev.res = "ok" /\ s.ppong[Ev.k]
            \/ Ev.res = "ctx" /\ s.pcancel[Ev.k] /\ ~s.ppong[Ev.k]
            \/ Ev.res \notin {"ok", "ctx"} /\ (s.ended \/ s.endReq)
+           \/ Ev.res = "wfail" /\ s.pwf[Ev.k]
      /\ s' = [s EXCEPT !.pst[Ev.k] = "done"]
   \/ /\ Ev.ev = "done"
      /\ (Check \in {"C23", "C07"}) =>
